@@ -150,6 +150,22 @@ pub fn cases(prop: &str, tier: Tier, seed: u64) -> Vec<CaseDesc> {
                 }
             }
         }
+        "C16" => {
+            out.extend(with_scenario(disk_corpus(false), "visit"));
+            for (p, nq, nt) in [("full", 2000, 80_000), ("mvp", 300, 10_000), ("gcgraph", 300, 10_000)] {
+                out.extend(with_scenario(g(p, nq, nt), "visit"));
+            }
+            for (kind, d) in [("block", 10), ("block", 100_000), ("loop", 100_000), ("if", 100_000), ("mixed", 100_000), ("blockbr", 50_000)] {
+                out.push(CaseDesc { spec: format!("deep:{}:{}", kind, d), scenario: "visit".into() });
+            }
+            if !q {
+                out.push(CaseDesc { spec: "deep:mixed:1000000".into(), scenario: "visit".into() });
+            }
+        }
+        "C17" => {
+            out.extend(with_scenario(crate::census::hist_exhaustive(if q { 6 } else { 7 }), "hist"));
+            out.extend(with_scenario(crate::census::hist_random(seed, if q { 300 } else { 10_000 }, 200), "hist"));
+        }
         "C13" => {
             out.extend(with_scenario(disk_corpus(false), "rt:emit,gc"));
             out.extend(with_scenario(g("names", 4000, 150_000), "rt:emit,gc"));
